@@ -325,7 +325,7 @@ func TestC07(t *testing.T) {
 			defer mu.Unlock()
 			tag := fmt.Sprintf("batch first=%d count=%d stress=%d", jb.first, jb.count, jb.stress)
 			for _, hz := range cr.Hazards {
-				r.Violation("deadlock", "a goroutine re-acquires a lock it holds: "+hz, map[string]any{"batch": tag, "hazard": hz, "child_blocked_until_stopped": cr.TimedOut})
+				r.Violation("deadlock", "lock discipline violated (reported by the shim before the goroutine blocked): "+hz, map[string]any{"batch": tag, "hazard": hz, "child_blocked_until_stopped": cr.TimedOut})
 			}
 			if cr.TimedOut && len(cr.Hazards) > 0 {
 				return
